@@ -371,6 +371,12 @@ fn src_grammar(src: &str) -> (String, String, Option<String>) {
             let mut rng = Rng::new(seed ^ 0x1A18 ^ (k as u64).wrapping_mul(0x9E37));
             ("cfg".into(), serde_json::to_string(&lalr_split_grammar(&mut rng, &format!("c15lalr{k}"))).unwrap(), None)
         }
+        "lexsplit" => {
+            let seed: u64 = f[1].parse().unwrap();
+            let k: usize = f[2].parse().unwrap();
+            let mut rng = Rng::new(seed ^ 0x1E85 ^ (k as u64).wrapping_mul(0x9E37));
+            ("lex".into(), serde_json::to_string(&lex_split_grammar(&mut rng, &format!("c15lex{k}"))).unwrap(), None)
+        }
         "lalrglr" => {
             let seed: u64 = f[1].parse().unwrap();
             let k: usize = f[2].parse().unwrap();
@@ -637,6 +643,40 @@ fn main() {
                 em.header(&name, "glr", &format!("lalrglr:{seed}:{k}"), &p);
                 let lv = lang_view(&p);
                 explore_tokens(&mut em, &p, &name, &mut rng, budget.max(3000), nrandom, &lv);
+                npairs += 1;
+            }
+            Err(_) => rejected += 1,
+        }
+    }
+    // lexically conflicting look-aheads ('a' vs 'ab') in two same-core states: the merge is forbidden by
+    // the token-conflict analysis (adjacency known through LAST of a wrapper rule); sentences are written
+    // WITHOUT separators, so that the lexer has to choose
+    for k in 0..(if thorough { 40 } else { 8 }) {
+        let mut grng = Rng::new(seed ^ 0x1E85 ^ (k as u64).wrapping_mul(0x9E37));
+        let name = format!("c15lex{k}");
+        let json = serde_json::to_string(&lex_split_grammar(&mut grng, &name)).unwrap();
+        match build_pair(&mut cu, &work, &name, &json, None, nproc) {
+            Ok(p) => {
+                if !p.det_ok {
+                    nondet += 1;
+                }
+                em.header(&name, "lex", &format!("lexsplit:{seed}:{k}"), &p);
+                let (mut pa, mut pb) = (Parser::new(), Parser::new());
+                pa.set_language(&p.lang_a).unwrap();
+                pb.set_language(&p.lang_b).unwrap();
+                let gg = gen::GrammarGen::new(&json, None);
+                let mut seen: Vec<Vec<u8>> = Vec::new();
+                for r in 0..60 {
+                    let sent = gg.sentence(&mut grng, [4, 6, 8, 12, 20][r % 5]);
+                    let glued: Vec<u8> = sent.iter().flat_map(|t| t.text.bytes()).collect();
+                    let spaced: Vec<u8> = sent.iter().map(|t| t.text.clone()).collect::<Vec<_>>().join(" ").into_bytes();
+                    for text in [glued, spaced] {
+                        if !seen.contains(&text) {
+                            em.case(&format!("{name}-d{}", seen.len()), &mut pa, &mut pb, &text, None);
+                            seen.push(text);
+                        }
+                    }
+                }
                 npairs += 1;
             }
             Err(_) => rejected += 1,
